@@ -106,26 +106,7 @@ def run(ctx):
 
     r144(ctx, api, wr)
 
-    # R14.5
-    cc = wr.func('consolidate_categories')
-    ifs = [s for s in iter_child_stmts(cc.body) if isinstance(s, ast.If) and '>' in norm(s.test) and 'num_categories' in norm(s.test)]
-    ok = len(ifs) == 1
-    d = ''
-    if ok:
-        t = ifs[0].test
-        cmp_ = [x for x in ast.walk(t) if isinstance(x, ast.Compare) and isinstance(x.ops[0], ast.Gt)]
-        ok = len(cmp_) == 1 and len(ifs[0].body) == 1 and isinstance(ifs[0].body[0], ast.Assign)
-        if ok:
-            bound = norm(cmp_[0].comparators[0])
-            tgt = norm(ifs[0].body[0].targets[0])
-            new = norm(cmp_[0].left)
-            d = 'if %s > %s: %s = %s' % (new, bound, tgt, norm(ifs[0].body[0].value))
-            ok = bound == tgt and norm(ifs[0].body[0].value) == new
-    ctx.ob('R14.5', 'writer.consolidate_categories:running-maximum-against-the-stored-value', ok,
-           '%s (the bound compared against must be the value that is updated, otherwise the result is not the maximum over all row groups)' % d, wr.loc(cc))
-    s = src(cc)
-    ctx.ob('R14.5', 'writer.consolidate_categories:covers-every-row-group-and-chunk',
-           'for rg in fmd.row_groups' in s and 'for col in rg.columns' in s and "key_value[2] = json.dumps(meta, sort_keys=True).encode()" in s, '', wr.loc(cc))
+    consolidate_rule(ctx, 'R14.5')
     from . import callsigs as _cs
     from . import findings3 as _f3
     _f3.open_routes(ctx, 'R14.11')
@@ -347,3 +328,28 @@ def r1410(ctx, rule='R14.10'):
             ok = True
     ctx.ob(rule, 'api.ParquetFile.__init__:glob-result-opened-as-it-is', ok,
            'definitions of the file list that reach metadata_from_many: %s; the glob result is `%s`' % (seen, norm(globs[0])[:60]), api.loc(globs[0]))
+
+
+def consolidate_rule(ctx, rule):
+    """writer.consolidate_categories: the recorded number of categories is the running (numeric) maximum over every row
+    group and chunk, compared against the value that is updated"""
+    wr = ctx.repo['writer']
+    cc = wr.func('consolidate_categories')
+    ifs = [s for s in iter_child_stmts(cc.body) if isinstance(s, ast.If) and '>' in norm(s.test) and 'num_categories' in norm(s.test)]
+    ok = len(ifs) == 1
+    d = ''
+    if ok:
+        t = ifs[0].test
+        cmp_ = [x for x in ast.walk(t) if isinstance(x, ast.Compare) and isinstance(x.ops[0], ast.Gt)]
+        ok = len(cmp_) == 1 and len(ifs[0].body) == 1 and isinstance(ifs[0].body[0], ast.Assign)
+        if ok:
+            bound = norm(cmp_[0].comparators[0])
+            tgt = norm(ifs[0].body[0].targets[0])
+            new = norm(cmp_[0].left)
+            d = 'if %s > %s: %s = %s' % (new, bound, tgt, norm(ifs[0].body[0].value))
+            ok = bound == tgt and norm(ifs[0].body[0].value) == new
+    ctx.ob(rule, 'writer.consolidate_categories:running-maximum-against-the-stored-value', ok,
+           '%s (the bound compared against must be the value that is updated, otherwise the result is not the maximum over all row groups)' % d, wr.loc(cc))
+    s = src(cc)
+    ctx.ob(rule, 'writer.consolidate_categories:covers-every-row-group-and-chunk',
+           'for rg in fmd.row_groups' in s and 'for col in rg.columns' in s and "key_value[2] = json.dumps(meta, sort_keys=True).encode()" in s, '', wr.loc(cc))
